@@ -756,7 +756,8 @@ bool PedersenVSS::Reconstruct
 		// broadcast own shares for public reconstruction
 		if (i != dealer)
 		{
-			if (mpz_cmp_ui(sigma_i, 0L) && mpz_cmp_ui(tau_i, 0L))
+			// shares are missing, if both values still have their initial value
+			if (mpz_cmp_ui(sigma_i, 0L) || mpz_cmp_ui(tau_i, 0L))
 			{
 				rbc->Broadcast(sigma_i);
 				rbc->Broadcast(tau_i);
